@@ -88,12 +88,11 @@ class ParallelStep(GeneticStep):
         """Computes the ranges for each slide, according to weights."""
         total = sum(self.weights)
         indices = [0] + self.cumsum(
-            [int(round(w * len(population) / total, 0)) for w in self.weights],
+            [int(round(w * target_size / total, 0)) for w in self.weights],
         )
-        ranges = list(zip(indices, indices[1:]))
-        if ranges[-1][0] < target_size:
-            ranges[-1] = (ranges[-1][0], target_size)
-        return ranges
+        indices = [min(i, target_size) for i in indices]
+        indices[-1] = target_size  # the slices always add up to the target, whatever the rounding did
+        return list(zip(indices, indices[1:]))
 
     def iterate(
         self,
@@ -154,13 +153,8 @@ class ExclusiveParallelStep(ParallelStep):
         generation: int,
     ) -> Iterator[Individual]:
         npopulation: list[Individual] = list(population)
-        total = sum(self.weights)
-        indices = [0] + self.cumsum(
-            [int(round(w * len(npopulation) / total, 0)) for w in self.weights],
-        )
-        ranges = list(zip(indices, indices[1:]))
+        ranges = self.compute_ranges(npopulation, target_size)
         assert len(ranges) == len(self.steps)
-        ranges[-1] = (ranges[-1][0], target_size)  # Fix the last position
 
         for (start, end), step in zip(ranges, self.steps):
             yield from step.apply(
